@@ -92,8 +92,19 @@ func VerifC15Hash(n, e int) {
 	}
 	leaves := make([][]byte, n)
 	data := make([]encoding.BinaryMarshaler, n)
+	backing := make([][]byte, n)
 	for i := range leaves {
-		leaves[i] = verifBytes("leaf", i%3+1)
+		// every third leaf is a short view into a larger buffer the caller owns (capacity beyond a digest):
+		// nothing of that buffer may be written; leaf 2 is leaf 0 again (the same storage listed twice)
+		if i%3 == 0 {
+			backing[i] = verifBytes("leaf", 40)
+			leaves[i] = backing[i][:i%2+1]
+		} else if i == 2 {
+			backing[i], leaves[i] = backing[0], leaves[0]
+		} else {
+			backing[i] = verifBytes("leaf", i%3+1)
+			leaves[i] = backing[i]
+		}
 		l := verifLeaf{b: leaves[i]}
 		if e >= 0 && i == e {
 			l.err = verifErrA
@@ -105,7 +116,7 @@ func VerifC15Hash(n, e int) {
 	}
 	snapshot := make([][]byte, n)
 	for i := range leaves {
-		snapshot[i] = append([]byte{}, leaves[i]...)
+		snapshot[i] = append([]byte{}, backing[i]...)
 	}
 	hasher := NewHasher(crypto.SHA256)
 	got, err := hasher.Hash(data)
@@ -119,7 +130,7 @@ func VerifC15Hash(n, e int) {
 	}
 	// inputs are not modified
 	for i := range leaves {
-		verifAssert("input.unchanged", verifEq(leaves[i], snapshot[i]))
+		verifAssert("input.unchanged", verifEq(backing[i], snapshot[i]))
 		l, ok := data[i].(verifLeaf)
 		verifAssert("input.same", ok && len(l.b) == len(leaves[i]))
 	}
